@@ -11,7 +11,8 @@ def run(chk):
                 'crashes with re-runs, RerunCompletes under weak fairness. (2) the REAL commands are killed immediately '
                 'before operation k, for every k (and after the last), over a trash with a file, a deep directory tree '
                 'whose restore crosses volumes, a link (dangling, and in the @dirlink scenarios to an existing directory outside the trash, '
-                'which must stay untouched) and a file on another volume, plus two orphans; TLC (PurgeTrace) '
+                'which must stay untouched) and a file on another volume, plus two orphans; trash-restore also with --overwrite onto '
+                'occupied locations; TLC (PurgeTrace) '
                 'evaluates InfoLast / RestoreNeverLoses / Frame on every post-kill on-disk state; then the command is run '
                 'again (for a killed trash-restore: trash-empty) and the final state must be the completed purge, with '
                 'restored destinations intact. (3) lock-step runs: the on-disk state after every single operation of the '
@@ -20,7 +21,8 @@ def run(chk):
     chk.assumptions += opcommon.ASSUME
     for name, kw in [('empty', dict(cmd='empty')), ('rm', dict(cmd='rm')),
                      ('restore_cross', dict(cmd='restore', crossvol=('e2',), selected=('e1', 'e2'))),
-                     ('restore_same', dict(cmd='restore', selected=('e1', 'e2', 'e3')))]:
+                     ('restore_same', dict(cmd='restore', selected=('e1', 'e2', 'e3'))),
+                     ('restore_overwrite', dict(cmd='restore', selected=('e1', 'e2'), crossvol=('e2',), occupied=('e1', 'e2', 'e3')))]:
         res = opspec.run_purgeops(name, **kw)
         chk.add_tlc('PurgeOps:' + name, res, constants=str(kw))
     items = []
@@ -79,7 +81,7 @@ def run(chk):
                               {'kind': 'purge-trace', 'scen': scen})
             if t['states'] not in uniq:
                 uniq.append(t['states'])
-        res, acc = opspec.validate_purge_traces(uniq, cmd, sel, ['e2', 'e4'])
+        res, acc = opspec.validate_purge_traces(uniq, cmd, sel, ['e2', 'e4'], occupied=opdrivers.OCCUPIED.get(scen, ()))
         chk.add_tlc('PurgeOpsTrace:' + scen, res, constants='state sequences=%d (of %d runs)' % (len(uniq), len(ts)))
         chk.traces += len(ts)
         for i, u in enumerate(uniq):
